@@ -438,7 +438,7 @@ Definition truth_loop (pre until : bool) (v : cell) : M bool :=
       end
     else
       match v with
-      | CI z => ret (if until then negb (z =? 0) else (Z.lnot z =? 0))
+      | CI z => ret (if until then (z =? 0) else (Z.lnot z =? 0))
       | _ => fail ETypeMismatch
       end
   else truth v.
